@@ -357,24 +357,28 @@ def run(M, rep, tier, only=None):
                 s = s.replace(a, b)
             return s
         alpha = sorted({ch for a, b in rules for ch in a + b} | {"x"})
-        witness = None
+        witnesses = []
         n = 0
-        for L in range(1, 6):
+        for L in range(1, 5):
             for tup in itertools.product(alpha, repeat=L):
                 s = "".join(tup)
                 n += 1
                 once = apply(s)
                 if apply(once) != once:
-                    witness = (s, once, apply(once))
-                    break
-            if witness:
-                break
+                    # minimal witnesses only: no proper substring is itself a witness
+                    dele = [a for a, b in rules if b == ""]
+                    core = s
+                    for a in dele:
+                        core = core.replace(a, "")
+                    if core != s and apply(apply(core)) != apply(core):
+                        continue        # the same witness with deletable characters sprinkled in
+                    if not any(w in s for w, _, _ in witnesses):
+                        witnesses.append((s, once, apply(once)))
         rep.stats["sanitizer_strings"] = n
-        if witness:
-            redex = [a for a, b in rules if a in witness[1]]
-            rep.bad(R6, "sanitizer/redex %r survives one pass" % (redex[0] if redex else "?"), "clean-up is not idempotent: sanitizer(%r) = %r but sanitizer(%r) = %r" % (
-                witness[0], witness[1], witness[1], witness[2]), site=g.file + ":%d" % g.node.lineno,
-                detail="rewrite system %s" % rules)
+        if witnesses:
+            for w in witnesses:
+                rep.bad(R6, "sanitizer/witness %r" % w[0], "clean-up is not idempotent: sanitizer(%r) = %r but sanitizer(%r) = %r" % (
+                    w[0], w[1], w[1], w[2]), site=g.file + ":%d" % g.node.lineno, detail="rewrite system %s" % rules)
         else:
             rep.ok(R6, "sanitizer", "%d strings over %s" % (n, alpha))
 
